@@ -129,6 +129,11 @@ def build_cases(tier, seed):
     rb = C.random_bytes(rng, 40 if mini else 300 if quick else 3000)
     for label, b in rb:
         cases.append(('random_bytes', label, 'api', b.decode('latin-1'), default))
+    diag = C.diagnostic_texts()
+    for label, src in (diag[::40] if mini else diag):
+        cases.append(('diagnostic', label, 'api', src, default))
+    for label, src in diag[::10 if quick else 1]:
+        cases.append(('diagnostic', label, 'main', src, R.opts(out='fresh')))
     specials = C.special_texts() + C.edge_texts()
     nested = C.nested_texts()
     for label, src in specials + nested:
